@@ -42,6 +42,7 @@ class Observer:
         self.highest_out = 0
         self.highest_in = 0
         self.goaways_sent = 0
+        self.last_goaway = None      # last-stream-id of the most recent GOAWAY we sent
 
     def clone(self):
         return copy.deepcopy(self)
@@ -75,6 +76,7 @@ class Observer:
         sid = f.stream_id
         if name == 'GoAwayFrame':
             self.goaways_sent += 1
+            self.last_goaway = f.last_stream_id
             if self.conn_closed is None:
                 self.conn_closed = 'sent-goaway'
             return
@@ -111,6 +113,8 @@ class Observer:
                 v.closed_by = 'send_rst'
             elif v.closed_by is None:
                 v.closed_by = 'send_rst'
+            if not self.own(sid) and sid > self.highest_in:
+                self.highest_in = sid      # a peer-initiated (promised) stream we refused
         elif name == 'PushPromiseFrame':
             p = self._get(f.promised_stream_id)
             p.st = RES_LOCAL
